@@ -114,6 +114,21 @@ claim('C08', 'effect (who-may-remove), must-call and monotone-write rules on the
       'rustc front end + MIR (polymorphic bodies); mirfacts.',
       'DESIGN.md section 4 C08')
 
+claim('C14', 'provenance of header lengths, path-enumerated codec sequence agreement, controlling-condition comparison, interval reasoning over window constants (all on MIR)',
+      'Round-trip equality for all values is NOT decided. Decided: every SubmessageHeader.content_length is the length of the very body in the same Submessage or a literal equal to '
+      'the fixed size computed from the ADT table; the hand-written SequenceNumber / NumberSet / SubmessageHeader codecs write and read the same primitive sequence on every path; the '
+      'InlineQos flag and inline_qos presence share one controlling condition and the DDSData variant table matches the reader\'s; from_base_and_set can never produce more bits than '
+      'read_from accepts (256) and iteration stays inside [0, num_bits).',
+      'rustc front end + MIR; mirfacts; derived speedy codecs agree by construction; Data/DataFrag cursor parsers not covered by the sequence rule.',
+      'DESIGN.md section 4 C14')
+claim('C15', 'table extraction from MIR (ParameterId constant, wire type argument, multiplicity from control shape) and table agreement; emission-condition classification',
+      'Byte-level CDR of parameter values is NOT decided. Decided for SPDP participant data, SEDP reader/writer/topic data and QosPolicies in both feature configurations (about 140 '
+      'parameters each): every parameter written is read with the same wire type and compatible multiplicity and vice versa; whether a parameter is written depends only on presence / '
+      'variant of its field, never on its value; absent optionals decode to the RTPS defaults; the parameter-list reader is id-agnostic up to the sentinel. Six write-only parameters '
+      'of fields documented as not implemented are listed as known findings (F13, demonstrated).',
+      'rustc front end + MIR (both feature sets); mirfacts; wrapper pairs Locator/repr::Locator, String/StringWithNul.',
+      'DESIGN.md section 4 C15')
+
 _pending = 'check not built yet in this revision (static rules designed in DESIGN.md section 4; implementation in progress)'
 for _p in ['C01', 'C02', 'C03', 'C04', 'C05', 'C06', 'C08', 'C09', 'C10', 'C11', 'C12', 'C14', 'C15', 'C16', 'C17', 'C18', 'C19', 'C20']:
     if _p not in CHECKS:
